@@ -69,6 +69,23 @@ def gen_cases(rng, tier: str) -> list[dict]:
         c = common.make_eval_case("vanishing-factor", e, pt)
         c.update(x=rng.choice(common.names_of(e)), prior=None)
         cases.append(c)
+    # even powers (and squares written as products) of operands that can be negative, under nodes that need a positive
+    # operand: the expression is defined where the operand is negative, so every route - the simplifying ones included -
+    # must answer there (a rewrite that pulls the even exponent out of a logarithm or a root narrows the domain)
+    X, V = gen.X, gen.X.Variable
+    x, y = V("x"), V("y")
+    for W in (x, X.NthRoot(x, 3), X.NthRoot(x, 5), X.Sine(x), X.Negation(x), X.Minus(x, X.Constant(1)), X.NthPower(x, 3),
+              X.Multiply(x, X.Exponential(x)), X.NthRoot(X.Minus(x, X.Constant(1)), 3)):
+        for n in (2, 4, 6):
+            sq = [X.NthPower(W, n)] + ([X.Multiply(W, W)] if n == 2 else [])
+            for s_ in sq:
+                for outer in (X.Logarithm(s_), X.Logarithm(s_, base=2), X.NthRoot(s_, 3), X.Power(s_, y), X.Divide(y, s_),
+                              X.NthRoot(X.Add(s_, X.Constant(1)), 2), X.Logarithm(X.Exponential(s_))):
+                    for e in (outer, X.Multiply(outer, y), X.Add(y, outer)):
+                        for xv in (-8.0, -0.5):
+                            c = common.make_eval_case("even-power-of-negative", e, {"x": xv, "y": 1.5})
+                            c.update(x=rng.choice(["x", "y"]), prior=None)
+                            cases.append(c)
     return cases
 
 
